@@ -8,7 +8,6 @@ import (
 	"io"
 	"net/http"
 	"strconv"
-	"strings"
 	"time"
 
 	"github.com/cnotch/ipchub/config"
@@ -69,22 +68,15 @@ func GetM3u8(logger *xlog.Logger, path string, token string, addr string, w http
 }
 
 // GetTS .
-func GetTS(logger *xlog.Logger, path string, addr string, w http.ResponseWriter) {
+// streamPath 为流的路径(与权限检查使用的路径一致)，seqStr 为片段序号
+func GetTS(logger *xlog.Logger, streamPath string, seqStr string, addr string, w http.ResponseWriter) {
+	path := streamPath + "/" + seqStr
 	logger = logger.With(xlog.Fields(
 		xlog.F("path", path), xlog.F("ext", "ts"),
 		xlog.F("addr", addr)))
 
 	logger.Info("http-hls: access segment file")
 
-	i := strings.LastIndex(path, "/")
-	if i < 0 {
-		logger.Errorf("http-hls: path illegal `%s`", path)
-		http.Error(w, "Path illegal", http.StatusBadRequest)
-		return
-	}
-
-	streamPath := path[:i]
-	seqStr := path[i+1:]
 	seq, err := strconv.Atoi(seqStr)
 	if err != nil {
 		logger.Errorf("http-hls: path illegal `%s`", path)
